@@ -151,6 +151,8 @@ def parse_arriba(args:argparse.Namespace) -> None:
 
     logger.info('Arriba output %s loaded.', fusion)
 
+    tally.log()
+
     if not variants:
         logger.warning('No variant record is saved.')
         return
@@ -165,5 +167,3 @@ def parse_arriba(args:argparse.Namespace) -> None:
     seqvar.io.write(variants, output_path, metadata)
 
     logger.info("Variants written to disk.")
-
-    tally.log()
